@@ -167,6 +167,31 @@ def run_names(key):
             if bad:
                 return viol(bad)
             n += 1
+    # per bin: a strong interferer (50 ... 70 dB above the sensor noise, condition 1e5 ... 1e7) in ONE bin of the
+    # noise PSD changes the result of that bin only (with an explicit reference channel no bin depends on another)
+    if not (needs_ref and ref is None) and F >= 2:
+        r = A.rng(seed, 'c13ill', name, D, F, nlead)
+        for db in (50, 70):
+            v = A.cnormal(r, (D,))
+            ill = 10.0 ** (db / 10) * np.outer(v, v.conj()) + np.eye(D)
+            Pnn2 = Pnn.copy()
+            where = (0,) * len(lead) + (F - 1,)
+            Pnn2[where] = ill
+            try:
+                got2 = np.asarray(bw.get_bf_vector(name, Pxx, Pnn2, **call_kw))
+            except Exception as e:  # noqa
+                return viol(f'get_bf_vector({name!r}) raised {e!r} with a noise PSD of condition 1e{db // 10} in one bin')
+            keep = np.ones(lead + (F,), bool)
+            keep[where] = False
+            a, b = got2[keep], got[keep]
+            if 'gev' in name or 'pca' in name:
+                ph = np.sum(b.conj() * a, axis=-1, keepdims=True)
+                a = a * (ph / np.where(np.abs(ph) == 0, 1, np.abs(ph))).conj()
+            bad = tol.mismatch(a, b, 1e-9, what=f'{name}: bins other than {list(where)} after a {db} dB interferer was '
+                                                 f'added to the noise PSD of bin {list(where)}')
+            if bad:
+                return viol(bad)
+            n += 1
     return ok(outcome=tol.digest(np.abs(got)), evals=1 + n)
 
 
